@@ -36,4 +36,7 @@ CONSTANTS
   InlinedAsIs = FALSE
   MaxChain = 3
   BoundBeforeRead = TRUE
+  TargetOpen = FALSE
+  SharedBuffer = FALSE
+  Bodies = {"b1"}
 INVARIANTS Shape
